@@ -257,6 +257,14 @@ func twinDump(cfg *Cfg, boot uint64, entries []string) string {
 // state machine call; a failure is reported as a model/implementation difference.
 func (rn *runner) hypotheses(ep *epoch, rp Replay) {
 	for _, c := range ep.calls {
+		// a Start entry must carry the height that is being started
+		if len(c.Acts) > 0 && strings.HasPrefix(c.Acts[0], "W/s:") && (c.Kind == "start" || strings.HasPrefix(c.In, "s:")) &&
+			uint64(entryHeight(c.Acts[0][2:])) != c.HBefore {
+			rn.res.Hit("start-entry-with-other-height")
+			violate(lib.Violation{Sig: "start-entry-logged-with-next-height",
+				What: fmt.Sprintf("ProcessStart at height %d returned %s: the log entry carries the height AFTER the commit that the same call performed (actions %v)",
+					c.HBefore, c.Acts[0], c.Acts), Replay: rp})
+		}
 		nW, commitAt := 0, -1
 		for i, a := range c.Acts {
 			if strings.HasPrefix(a, "W/") {
@@ -292,9 +300,10 @@ func (rn *runner) hypotheses(ep *epoch, rp Replay) {
 }
 
 type lineage struct {
-	votes []vote
-	props map[[2]int][]string
-	kills []Kill
+	aliased bool // an ancestor logged a Start entry with a height other than the one it started
+	votes   []vote
+	props   map[[2]int][]string
+	kills   []Kill
 }
 
 func (l lineage) extend(ep *epoch, k int, kl Kill) lineage {
@@ -375,7 +384,13 @@ func (rn *runner) oracle(cfg *Cfg, ep *epoch, lin lineage, rp Replay, bootEffect
 	if twin != "" && cfg.AppMode == "stable" {
 		res.Compared(1)
 		if ep.dumpBoot != twin {
-			violate(lib.Violation{Sig: "recovered-state-differs-from-uncrashed-twin",
+			sig := "recovered-state-differs-from-uncrashed-twin"
+			if lin.aliased {
+				// known cause: the Start entry of a height that committed inside ProcessStart carries
+				// the NEXT height, survives the prune and is replayed as the start of the next height
+				sig += "-start-entry-with-next-height"
+			}
+			violate(lib.Violation{Sig: sig,
 				What:   "state machine after replay differs from an uncrashed machine fed the durably recorded inputs: " + diffHint(ep.dumpBoot, twin),
 				Replay: rp})
 		}
@@ -443,9 +458,9 @@ func (rn *runner) explore(cfg *Cfg, script []Input, startIdx int, ep *epoch, lin
 			kills = fixed[:1]
 		}
 	} else {
-		maxK := rn.f.Scale(48, 400)
+		maxK := rn.f.Scale(48, 120)
 		if depth > 0 {
-			maxK = rn.f.Scale(3, 8)
+			maxK = rn.f.Scale(3, 5)
 		}
 		ks := make([]int, n+1)
 		for i := range ks {
@@ -540,6 +555,14 @@ func (rn *runner) explore(cfg *Cfg, script []Input, startIdx int, ep *epoch, lin
 		}
 		rn.hypotheses(rec, rp)
 		twin := twinDump(cfg, ep.boot, append(append([]string{}, ep.loaded...), ep.appended[:ep.flushedN[k]]...))
+		nl.aliased = lin.aliased || aliasedStart(ep)
+		if os.Getenv("C13_DEBUG") != "" {
+			fmt.Fprintf(os.Stderr, "KILL %+v parent effects[:k]=%s\n  image chain=%d loaded=%v\n  durable(recording order)=%v\n  rec calls:\n", kl, effToks(ep.effects[:k]), ep.chainAt[k], rec.loaded,
+				append(append([]string{}, ep.loaded...), ep.appended[:ep.flushedN[k]]...))
+			for _, c := range rec.calls {
+				fmt.Fprintf(os.Stderr, "    %+v\n", c)
+			}
+		}
 		rn.oracle(cfg, rec, nl, rp, bootBoundary(rec), twin)
 		// statistics
 		rn.res.Case(fmt.Sprintf("%v|%v|%v", *cfg, script, nl.kills), len(rec.loaded) > 0 || len(nl.votes) > 0)
@@ -568,6 +591,15 @@ func (rn *runner) explore(cfg *Cfg, script []Input, startIdx int, ep *epoch, lin
 		rec.cleanup()
 		rn.ask("pop")
 	}
+}
+
+func aliasedStart(ep *epoch) bool {
+	for _, c := range ep.calls {
+		if len(c.Acts) > 0 && strings.HasPrefix(c.Acts[0], "W/s:") && uint64(entryHeight(c.Acts[0][2:])) != c.HBefore {
+			return true
+		}
+	}
+	return false
 }
 
 func firstOther(cfg *Cfg) int {
@@ -723,6 +755,10 @@ func directed() []Replay {
 				{K: "v", H: 1, R: 0, Sender: 2, Val: 77}, {K: "t", Step: 1, H: 1, R: 0}, {K: "v", H: 1, R: 0, Sender: 3, Val: 77},
 				{K: "c", H: 1, R: 0, Sender: 1, Val: 77}, {K: "c", H: 1, R: 0, Sender: 2, Nil: true}, {K: "t", Step: 2, H: 1, R: 0},
 				{K: "p", H: 1, R: 1, Sender: 2, VR: -1, Val: 78}}},
+		{Note: "the proposer's next height is decided by messages that arrived early: ProcessStart itself commits",
+			Cfg: Cfg{Powers: []uint64{1, 1, 1}, Tbl: []int{1, 0, 0}, PMul: 1, Me: 0, C0: 0, AppMode: "stable"},
+			Script: []Input{{K: "v", H: 2, R: 0, Sender: 1, Val: 2001}, {K: "v", H: 1, R: 0, Sender: 2, Val: 1001}, {K: "c", H: 2, R: 0, Sender: 1, Val: 2001},
+				{K: "c", H: 1, R: 0, Sender: 2, Val: 1001}, {K: "p", H: 3, R: 0, Sender: 1, VR: -1, Val: 3510}, {K: "v", H: 3, R: 0, Sender: 1, Val: 3510}}},
 		{Note: "messages of the next height arrive early and decide the node's votes there; obsolete timers fire late",
 			Cfg: Cfg{Powers: eq4, Tbl: []int{1, 2}, PMul: 1, Me: 3, C0: 0, AppMode: "stable"},
 			Script: []Input{{K: "p", H: 1, R: 0, Sender: 2, VR: -1, Val: 41}, {K: "v", H: 1, R: 0, Sender: 0, Val: 41}, {K: "v", H: 1, R: 0, Sender: 1, Val: 41},
@@ -779,7 +815,7 @@ func main() {
 		jobs = append(jobs, job{cfg: &c, script: append([]Input{}, d.Script...), id: uint64(1000 + i)})
 	}
 	root := lib.NewRNG(f.Seed)
-	nRandom := f.Scale(160, 2500)
+	nRandom := f.Scale(160, 1200)
 	for i := 0; i < nRandom; i++ {
 		r := root.Fork(uint64(i))
 		cfg := genCfg(r)
